@@ -74,6 +74,10 @@ def main(argv=None):
     items = mod.plan(a.tier, seed)
     if a.only:
         items = [it for it in items if a.only in it["scenario"] or a.only in json.dumps(it.get("params", {}))]
+    if os.environ.get("VERIF_TWIN"):
+        # vacuity self-test: every program must reach its end (reported as a violation of 'twin-end-reached')
+        for it in items:
+            it["bounds"] = dict(it.get("bounds", {}), twin=True, P=0)
     budget = a.budget or getattr(mod, "BUDGET", {}).get(a.tier, 60.0 if a.tier == "quick" else 600.0)
     xres = None
     xproc = None
@@ -135,6 +139,8 @@ def report(prop, tier, seed, mod, aggs, xres, wall, verbose=False):
                          "exhaustive": agg["exhaustive"], "unexplored_prefixes": agg["unexplored"],
                          "max_preemptions_used": agg["max_preempt"],
                          "labels": agg["labels"], "infeasible_paths": agg["infeasible"]})
+        if agg.get("lpredict"):
+            lp_tot = per_item[-1]["lock_order_prediction"] = dict(agg["lpredict"], unreproduced_cycles=agg.get("inconclusive_cycles", []))
         if agg["fatal"] or agg["errors"]:
             for e in agg["fatal"][:2]:
                 harness_errors.append("%s: %s" % (ik, e[-800:]))
@@ -170,7 +176,7 @@ def report(prop, tier, seed, mod, aggs, xres, wall, verbose=False):
             path = os.path.join(REPLAYS, prop, "%s.json" % h)
             with open(path, "w") as f:
                 json.dump({"property": prop, "harness": prop.lower(), "scenario": agg["scenario"],
-                           "params": agg["params"], "bounds": agg["bounds"], "label": v["label"],
+                           "params": agg["params"], "bounds": dict(agg["bounds"], **(v.get("replay_bounds") or {})), "label": v["label"],
                            "info": v.get("info"), "model": v.get("model"), "decisions": v["decisions"],
                            "key": key, "log": v.get("log")}, f, indent=1, default=str)
             viol_lines.append("VIOLATION property=%s replay=%s" % (prop, path))
